@@ -4,7 +4,7 @@ seeded/<property>-<n>/ (n from 5 up).  usage: add_seeded_r3.py [3|4]"""
 import json, os, shutil, glob, sys
 ROUND = sys.argv[1] if len(sys.argv) > 1 else "3"
 TAGS = "ABCDEFGHIJ" if ROUND == "3" else "abcdefgh"
-KIND = {"3": "third round, area", "4": "fourth round, usage scenario", "5": "fifth round, kind of edit", "6": "sixth round, hardest-to-notice", "7": "seventh round, hardest-to-notice, properties with few earlier changes"}[ROUND]
+KIND = {"3": "third round, area", "4": "fourth round, usage scenario", "5": "fifth round, kind of edit", "6": "sixth round, hardest-to-notice", "7": "seventh round, hardest-to-notice, properties with few earlier changes", "8": "eighth round, hardest-to-notice"}[ROUND]
 SRC, DST = "/tmp/wt", "/verif/seeded"
 added = []
 for t in TAGS:
@@ -39,7 +39,7 @@ for t in TAGS:
             "breaks": meta.get("summary", ""),
             "needs_to_manifest": meta.get("needs_to_manifest", ""),
             "demo": {"crate": conf.get("crate"), "file": "demo" + ext, "how": meta.get("demo_cmd", "")},
-            "produced_by": (f"independent sub-agent (third round, area {t}): given the text of all properties touching one area of the code and a scratch worktree, nothing from /verif; asked for changes that need a specific history / boundary / schedule to manifest" if ROUND == "3" else (f"independent sub-agent (fifth round, kind of edit {t}): given a KIND OF EDIT a maintainer might make (performance optimisation in board / engine, numeric types and boundaries, defensive checks, refactoring for readability, small feature additions, threads and timing, text-format round trips), the properties it may touch in compact form and a scratch worktree, nothing from /verif; asked for honest-looking edits that misbehave only for an uncommon input class, boundary, history or usage pattern" if ROUND == "5" else (f"independent sub-agent (sixth round, property group {t}): given two or three properties in full, ALL earlier changes for them and a scratch worktree, nothing from /verif; asked for the hardest-to-notice yet realistic changes (conjunctions of rare conditions, exact boundaries, order of operations, earlier state of the same object, positions random play never produces, very long inputs, cooperating edits)" if ROUND in ("6", "7") else "")) or f"independent sub-agent (fourth round, usage scenario {t}): given a usage scenario (state carried across searches, one board used for a long time, limits and time management, draws and evaluation, streaming input, UCI text, tables, search correctness), the properties it touches and a scratch worktree, nothing from /verif; asked for changes that only misbehave under a specific usage pattern"),
+            "produced_by": (f"independent sub-agent (third round, area {t}): given the text of all properties touching one area of the code and a scratch worktree, nothing from /verif; asked for changes that need a specific history / boundary / schedule to manifest" if ROUND == "3" else (f"independent sub-agent (fifth round, kind of edit {t}): given a KIND OF EDIT a maintainer might make (performance optimisation in board / engine, numeric types and boundaries, defensive checks, refactoring for readability, small feature additions, threads and timing, text-format round trips), the properties it may touch in compact form and a scratch worktree, nothing from /verif; asked for honest-looking edits that misbehave only for an uncommon input class, boundary, history or usage pattern" if ROUND == "5" else (f"independent sub-agent (sixth round, property group {t}): given two or three properties in full, ALL earlier changes for them and a scratch worktree, nothing from /verif; asked for the hardest-to-notice yet realistic changes (conjunctions of rare conditions, exact boundaries, order of operations, earlier state of the same object, positions random play never produces, very long inputs, cooperating edits)" if ROUND in ("6", "7", "8") else "")) or f"independent sub-agent (fourth round, usage scenario {t}): given a usage scenario (state carried across searches, one board used for a long time, limits and time management, draws and evaluation, streaming input, UCI text, tables, search correctness), the properties it touches and a scratch worktree, nothing from /verif; asked for changes that only misbehave under a specific usage pattern"),
             "agent_ran": meta.get("ran", []),
             "confirmed_here": {
                 "cmd": f"bin/confirm_mutant <worktree> {out} {n}",
